@@ -34,6 +34,7 @@ TRUSTED_EXTRA = ['labelling of kernel steps of the sender from taps and public s
 BRIDGES = ['C16.sink_merge_generated_eq_model', 'C16.sink_put_generated_eq_model']
 _PREP = {}
 MSS = 512
+LOOP_STEP_BUDGET = 60000      # kernel steps per closed loop (the longest sound loop of the generators needs a few thousand)
 
 
 def prepare(ctx):
@@ -217,14 +218,14 @@ def run_loop_impl(case):
     with quiet():
         sink = TCPSink(env)
     ackpath = Path(env, late, case['adelays'], case['adrops'],
-                   on_put=lambda a: sinklog.append((a.packet_id, a.ack, copy.deepcopy(sink.recv_buffer))))
+                   on_put=lambda a: sinklog.append((a.packet_id, a.ack, copy.deepcopy(sink.recv_buffer[:64]))))      # (a sound sink holds few ranges)
     sink.out = ackpath
     datapath = Path(env, sink, case['ddelays'], case['ddrops'])
     seg = seg_of(case)
     cc = make_cc(case['cc'], mss=seg, cwnd=max(512, seg))
     sr = SenderRun(env, case['cc'], cc, case['rtt_estimate'], case['nseg'] * seg, datapath)
     late.target = sr
-    ended = sr.run()
+    ended = sr.run(budget=LOOP_STEP_BUDGET)
     return sr, sink, ended, sinklog, datapath, ackpath
 
 
@@ -355,8 +356,17 @@ def run(ctx):
     # closed loops
     loops = [(i, c) for i, c in enumerate(cases) if c['kind'] == 'loop']
     runs = {}
-    for i, c in loops:
+    stuck = 0
+    for n, (i, c) in enumerate(loops):
         runs[i] = run_loop_impl(c)
+        if not runs[i][2] or runs[i][0].error:
+            stuck += 1
+            if stuck >= 8:
+                # loop after loop fails to end: each costs its whole step budget and the finding is established
+                dropped = {j for j, _ in loops[n + 1:]}
+                loops = loops[:n + 1]
+                cases = [cc for j, cc in enumerate(cases) if j not in dropped]
+                break
     smodel = model_batch('tcpsender', [runs[i][0].text(i) for i, c in loops], 300)
     kmodel = model_batch('tcpsink', [f'CASE {i}\n' + '\n'.join(f'P {pid} {runs[i][0].sender.mss}' for pid, a, b in runs[i][3]) + '\nEND'
                                      for i, c in loops], 500)
